@@ -28,7 +28,7 @@ warnings.simplefilter("ignore")
 SETTERS = ["fc_setter", "nac_setter", "dataset_setter", "masses_setter", "forces_setter"]
 GETTERS = ["fc_getter", "nac_getter", "dataset_getter", "masses_getter", "displacements_getter",
            "forces_getter", "primitive_getter", "supercell_getter", "unitcell_getter"]
-QUERY_KINDS = ["qp", "qpgv", "dmq", "gvq"]
+QUERY_KINDS = ["qp", "qpgv", "dmq", "gvq", "mesh", "meshgv", "band", "bandgv"]
 ENV_OPS = ("MutateHandle", "Drop", "MutateCopy")
 
 WORLDS = {
@@ -222,9 +222,107 @@ def nac_content(d):
     return h(d["born"], d["dielectric"], np.array([d["factor"]]), d.get("method", "gonze-default"))
 
 
+def project_core(ph, s2pp, u2pp, sr_memo):
+    """Projection of a real Phonopy object onto the abstract state of
+    spec/ApiHistory.tla (without caller handles and copy).  s2pp / u2pp: the
+    primitive-cell index of every supercell / unit-cell atom (taken from the
+    pristine object); sr_memo: provenance memo of short-range force constants."""
+    fc = ph._force_constants
+    if fc is None:
+        layout = "none"
+    else:
+        fca = np.asarray(fc)
+        layout = "full" if fca.shape[0] == fca.shape[1] else "compact"
+    nac = ph._nac_params
+    nacm = "none" if nac is None else ("wang" if nac.get("method") == "wang" else "gonze")
+    pm = ph._primitive._masses
+    massS = "cur" if np.array_equal(ph._supercell._masses, pm[s2pp]) else "old"
+    massU = "cur" if np.array_equal(ph._unitcell._masses, pm[u2pp]) else "old"
+    ds = ph._dataset
+    dsT = "none" if ds is None else ("t1" if "first_atoms" in ds else "t2")
+    dsF = ds_forces_content(ds) is not None
+    dmo = ph._dynamical_matrix
+    if dmo is None:
+        dm = dict(on=False, fc="cur", shared=False, nac="cur", cls="plain", sr="none")
+    else:
+        cls = "gonze" if isinstance(dmo, DynamicalMatrixGL) else ("wang" if isinstance(dmo, DynamicalMatrixWang) else "plain")
+        dfc = "cur" if (fc is not None and h(dmo._force_constants) == h(fc)) else "old"
+        shared = fc is not None and dmo._force_constants is fc
+        if cls == "plain":
+            dnac = "cur" if nac is None else "old"
+        elif nac is None:
+            dnac = "old"
+        else:
+            scale = max(1.0, float(np.abs(np.asarray(nac["born"])).max()))
+            ok = (np.abs(dmo._born - np.asarray(nac["born"])).max() < 0.05 * scale
+                  and np.abs(dmo._dielectric - np.asarray(nac["dielectric"])).max() < 0.05 * max(1.0, float(np.abs(np.asarray(nac["dielectric"])).max()))
+                  and dmo._unit_conversion == nac["factor"])
+            dnac = "cur" if ok else "old"
+        sr = "none"
+        if cls == "gonze" and dmo._Gonze_force_constants is not None:
+            key = h(dmo._Gonze_force_constants)
+            now = (h(fc) if fc is not None else None, nac_content(nac))
+            if key not in sr_memo:
+                sr_memo[key] = now
+            sr = "cur" if sr_memo[key] == now else "old"
+        dm = dict(on=True, fc=dfc, shared=bool(shared), nac=dnac, cls=cls, sr=sr)
+    gvo = ph._group_velocity
+    gv = "none" if gvo is None else ("cur" if gvo._dynmat is ph._dynamical_matrix else "stale")
+    scdo = ph._supercells_with_displacements
+    if scdo is None:
+        scd = "none"
+    else:
+        scd = "cur" if scd_matches(ph, scdo, ds) else "old"
+    return dict(layout=layout, nacm=nacm, massS=massS, massU=massU, dsT=dsT, dsF=bool(dsF), dm=dm, gv=gv, scd=scd)
+
+
+def scd_matches(ph, cells, ds):
+    if ds is None:
+        return False
+    pos0 = ph._supercell.positions
+    exp = []
+    if "first_atoms" in ds:
+        for fa in ds["first_atoms"]:
+            p = pos0.copy()
+            p[fa["number"]] += np.asarray(fa["displacement"], dtype=float)
+            exp.append(p)
+    elif "displacements" in ds:
+        exp = [pos0 + d for d in ds["displacements"]]
+    if len(exp) != len(cells):
+        return False
+    return all(np.abs(c.positions - e).max() < 1e-10 for c, e in zip(cells, exp))
+
+
+def content_fingerprint(ph):
+    """hash of everything the Phonopy object answers from (for EnvFrame)"""
+    dm = ph._dynamical_matrix
+    parts = [h(ph._force_constants) if ph._force_constants is not None else "0",
+             nac_content(ph._nac_params) or "0",
+             h(ph._primitive._masses, ph._supercell._masses, ph._unitcell._masses),
+             ds_disp_content(ph._dataset) or "0", ds_forces_content(ph._dataset) or "0",
+             str(id(dm)), str(id(ph._group_velocity)), str(id(ph._supercells_with_displacements))]
+    if dm is not None:
+        parts.append(h(dm._force_constants))
+        if isinstance(dm, DynamicalMatrixGL) and dm._Gonze_force_constants is not None:
+            parts.append(h(dm._Gonze_force_constants))
+        if dm.is_nac():
+            parts.append(h(dm._born, dm._dielectric))
+    return "|".join(parts)
+
+
+def index_maps(ph):
+    """primitive-cell index of every supercell / unit-cell atom of a pristine object"""
+    prim = ph._primitive
+    p2p = dict(prim.p2p_map)
+    s2pp = np.array([p2p[x] for x in prim.s2p_map])
+    u2pp = s2pp[np.array(ph._supercell.u2s_map)]
+    return s2pp, u2pp
+
+
 class Handle:
     def __init__(self, cls, obj, belief):
         self.cls, self.obj, self.belief = cls, obj, belief
+        self.grp = 0  # handles with the same grp are the same Python object
 
 
 class Driver:
@@ -311,71 +409,11 @@ class Driver:
 
     # ------------------------------------------------------------- projection
     def content_fingerprint(self):
-        """hash of everything the Phonopy object answers from (for EnvFrame)"""
-        ph = self.ph
-        dm = ph._dynamical_matrix
-        parts = [h(ph._force_constants) if ph._force_constants is not None else "0",
-                 nac_content(ph._nac_params) or "0",
-                 h(ph._primitive._masses, ph._supercell._masses, ph._unitcell._masses),
-                 ds_disp_content(ph._dataset) or "0", ds_forces_content(ph._dataset) or "0",
-                 str(id(dm)), str(id(ph._group_velocity)), str(id(ph._supercells_with_displacements))]
-        if dm is not None:
-            parts.append(h(dm._force_constants))
-            if isinstance(dm, DynamicalMatrixGL) and dm._Gonze_force_constants is not None:
-                parts.append(h(dm._Gonze_force_constants))
-            if dm.is_nac():
-                parts.append(h(dm._born, dm._dielectric))
-        return "|".join(parts)
+        return content_fingerprint(self.ph)
 
     def abs_state(self):
         ph, w = self.ph, self.w
-        fc = ph._force_constants
-        if fc is None:
-            layout = "none"
-        else:
-            fca = np.asarray(fc)
-            layout = "full" if fca.shape[0] == fca.shape[1] else "compact"
-        nac = ph._nac_params
-        nacm = "none" if nac is None else ("wang" if nac.get("method") == "wang" else "gonze")
-        pm = ph._primitive._masses
-        massS = "cur" if np.array_equal(ph._supercell._masses, pm[w.s2pp]) else "old"
-        massU = "cur" if np.array_equal(ph._unitcell._masses, pm[w.u2pp]) else "old"
-        ds = ph._dataset
-        dsT = "none" if ds is None else ("t1" if "first_atoms" in ds else "t2")
-        dsF = ds_forces_content(ds) is not None
-        # dynamical matrix
-        dmo = ph._dynamical_matrix
-        if dmo is None:
-            dm = dict(on=False, fc="cur", shared=False, nac="cur", cls="plain", sr="none")
-        else:
-            cls = "gonze" if isinstance(dmo, DynamicalMatrixGL) else ("wang" if isinstance(dmo, DynamicalMatrixWang) else "plain")
-            dfc = "cur" if (fc is not None and h(dmo._force_constants) == h(fc)) else "old"
-            shared = fc is not None and dmo._force_constants is fc
-            if cls == "plain":
-                dnac = "cur" if nac is None else "old"
-            elif nac is None:
-                dnac = "old"
-            else:
-                ok = (np.abs(dmo._born - np.asarray(nac["born"])).max() < 0.05
-                      and np.abs(dmo._dielectric - np.asarray(nac["dielectric"])).max() < 0.05
-                      and dmo._unit_conversion == nac["factor"])
-                dnac = "cur" if ok else "old"
-            sr = "none"
-            if cls == "gonze" and dmo._Gonze_force_constants is not None:
-                key = h(dmo._Gonze_force_constants)
-                now = (h(fc) if fc is not None else None, nac_content(nac))
-                if key not in self.sr_memo:
-                    self.sr_memo[key] = now
-                sr = "cur" if self.sr_memo[key] == now else "old"
-            dm = dict(on=True, fc=dfc, shared=bool(shared), nac=dnac, cls=cls, sr=sr)
-        gvo = ph._group_velocity
-        gv = "none" if gvo is None else ("cur" if gvo._dynmat is ph._dynamical_matrix else "stale")
-        # supercells with displacements
-        scdo = ph._supercells_with_displacements
-        if scdo is None:
-            scd = "none"
-        else:
-            scd = "cur" if self.scd_matches(scdo, ds) else "old"
+        core = project_core(ph, w.s2pp, w.u2pp, self.sr_memo)
         # copy
         if self.cp is None:
             cp = dict(on=False, ok=True, shared=False)
@@ -386,26 +424,15 @@ class Driver:
                 or c._symmetry is ph._symmetry or c._primitive_symmetry is ph._primitive_symmetry \
                 or (ph._force_constants is not None and c._force_constants is ph._force_constants)
             cp = dict(on=True, ok=h(c._primitive._masses) == self.cp_belief, shared=bool(sh))
-        held = [dict(cls=x.cls, alias=bool(self.handle_alias(x)), ok=self.handle_content(x) == x.belief)
-                for x in self.held]
-        return dict(layout=layout, nacm=nacm, massS=massS, massU=massU, dsT=dsT, dsF=bool(dsF), dm=dm,
-                    gv=gv, scd=scd, cp=cp, held=held)
+        canon = {}
+        for x in self.held:  # group ids are names: number them by first occurrence
+            canon.setdefault(x.grp, len(canon) + 1)
+        held = [dict(cls=x.cls, alias=bool(self.handle_alias(x)), ok=self.handle_content(x) == x.belief,
+                     grp=canon[x.grp]) for x in self.held]
+        return dict(core, cp=cp, held=held)
 
     def scd_matches(self, cells, ds):
-        if ds is None:
-            return False
-        pos0 = self.ph._supercell.positions
-        exp = []
-        if "first_atoms" in ds:
-            for fa in ds["first_atoms"]:
-                p = pos0.copy()
-                p[fa["number"]] += np.asarray(fa["displacement"], dtype=float)
-                exp.append(p)
-        elif "displacements" in ds:
-            exp = [pos0 + d for d in ds["displacements"]]
-        if len(exp) != len(cells):
-            return False
-        return all(np.abs(c.positions - e).max() < 1e-10 for c, e in zip(cells, exp))
+        return scd_matches(self.ph, cells, ds)
 
     # ------------------------------------------------------------------ steps
     def room(self):
@@ -414,6 +441,12 @@ class Driver:
     def add_handle(self, cls, obj):
         hd = Handle(cls, obj, None)
         hd.belief = self.handle_content(hd)
+        same = [x for x in self.held if x.obj is obj]
+        if same:
+            hd.grp = same[0].grp
+        else:
+            used = {x.grp for x in self.held}
+            hd.grp = min(g for g in range(1, len(self.held) + 2) if g not in used)
         self.held.append(hd)
         self.keepalive.append(obj)
 
@@ -441,7 +474,18 @@ class Driver:
         arr = self.w.fc(self.fresh_k(), self.rng, op["lay"])
         want = h(arr)
         self.keepalive.append(arr)
-        self.ph.force_constants = arr
+        how = self.k % 4 if not op.get("keep") else 0
+        if how == 1:    # a view that does not own its data (copied by DynamicalMatrix)
+            big = np.zeros((arr.shape[0] + 1,) + arr.shape[1:])
+            big[1:] = arr
+            self.keepalive.append(big)
+            self.ph.force_constants = big[1:]
+        elif how == 2:  # Fortran-ordered array
+            self.ph.force_constants = np.asfortranarray(arr)
+        elif how == 3 and self.ph._dynamical_matrix is not None:  # nested list
+            self.ph.force_constants = arr.tolist()
+        else:
+            self.ph.force_constants = arr
         ev["stored"] = self.ph._force_constants is not None and h(self.ph._force_constants) == want
         if op.get("keep") and self.room():
             self.add_handle("fc_setter", arr)
@@ -494,6 +538,11 @@ class Driver:
             quiet(self.ph.generate_displacements, distance=0.01 + 0.001 * k)
             ev["stored"] = self.ph._dataset is not None and "first_atoms" in self.ph._dataset
             return
+        if op["typ"] == "t2" and not op["f"] and not op.get("keep") and k % 2 == 0:
+            quiet(self.ph.generate_displacements, number_of_snapshots=3, random_seed=k, distance=0.01)
+            ev["stored"] = self.ph._dataset is not None and "displacements" in self.ph._dataset \
+                and "forces" not in self.ph._dataset
+            return
         self.ph.dataset = d
         ev["stored"] = ds_disp_content(self.ph._dataset) == wd and ds_forces_content(self.ph._dataset) == wf
         if op.get("keep") and self.room():
@@ -527,7 +576,10 @@ class Driver:
             self.add_handle("forces_setter", fobj)
 
     def do_ProduceFC(self, op, ev):
-        quiet(self.ph.produce_force_constants, calculate_full_force_constants=(op["lay"] == "full"))
+        kw = {}
+        if not op.get("refused") and self.fresh_k() % 3 == 0:  # the same forces again, through the argument
+            kw["forces"] = [np.array(fa["forces"]) for fa in self.ph._dataset["first_atoms"]]
+        quiet(self.ph.produce_force_constants, calculate_full_force_constants=(op["lay"] == "full"), **kw)
         fc = self.ph._force_constants
         lay = "full" if fc.shape[0] == fc.shape[1] else "compact"
         ev["stored"] = lay == op["lay"] and bool(np.isfinite(fc).all())
@@ -592,6 +644,22 @@ class Driver:
             out["frequencies"] = np.array([quiet(ph.get_frequencies, q) for q in qs])
         elif kind == "gvq":
             out["group_velocities"] = np.array([np.array(quiet(ph.get_group_velocity_at_q, q)) for q in qs])
+        elif kind in ("mesh", "meshgv"):
+            quiet(ph.run_mesh, [3, 3, 2], with_eigenvectors=False, with_group_velocities=(kind == "meshgv"),
+                  is_gamma_center=True)
+            d = ph.get_mesh_dict()
+            out["frequencies"] = np.array(d["frequencies"])
+            out["weights"] = np.array(d["weights"], dtype=float)
+            if kind == "meshgv":
+                out["group_velocities"] = np.array(d["group_velocities"])
+        elif kind in ("band", "bandgv"):
+            paths = [np.array([[0.0, 0.0, 0.0], [0.25, 0.1, 0.0], [0.5, 0.2, 0.1]]),
+                     np.array([[0.5, 0.5, 0.5], [0.3, 0.3, 0.3], [0.0, 0.0, 0.0]])]
+            quiet(ph.run_band_structure, paths, with_group_velocities=(kind == "bandgv"))
+            d = ph.get_band_structure_dict()
+            out["frequencies"] = np.array(d["frequencies"])
+            if kind == "bandgv":
+                out["group_velocities"] = np.array(d["group_velocities"])
         return out
 
     def fresh_object(self):
@@ -608,7 +676,7 @@ class Driver:
         fr.force_constants = np.array(ph.force_constants, dtype="double", order="C")
         return fr
 
-    TOL = {"frequencies": 1e-8, "dynamical_matrices": 1e-9, "group_velocities": 1e-6}
+    TOL = {"frequencies": 1e-8, "dynamical_matrices": 1e-9, "group_velocities": 1e-6, "weights": 1e-12}
 
     def do_Query(self, op, ev):
         kind = op["k"]
@@ -668,7 +736,9 @@ class Driver:
                 o["displacements"][0, 0, 0] += 0.002 * eps
         else:  # a cell object handed out by a getter
             o.masses = np.array(o._masses) * (1.0 + 0.05 * eps)
-        hd.belief = self.handle_content(hd)
+        for x in self.held:  # the caller knows which of its references are one object
+            if x.obj is o:
+                x.belief = self.handle_content(x)
 
     def do_Drop(self, op, ev):
         del self.held[op["i"] - 1]
@@ -738,7 +808,7 @@ def refused_ops(obs):
     """operations outside their guard: the code must refuse and change nothing"""
     ops = []
     if not obs["dm"]["on"]:
-        ops += [dict(op="Query", k=k, refused=True) for k in ("qp", "qpgv", "gvq")]
+        ops += [dict(op="Query", k=k, refused=True) for k in ("qp", "qpgv", "gvq", "mesh", "band")]
     if obs["layout"] == "none":
         ops += [dict(op="Query", k="dmq", refused=True), dict(op="Symmetrize", refused=True)]
     if not (obs["dsT"] == "t1" and obs["dsF"]):
@@ -751,8 +821,8 @@ def refused_ops(obs):
 
 
 WEIGHT = {"SetFC": 3, "SetNAC": 3, "ClearNAC": 2, "SetMasses": 3, "Symmetrize": 3, "SymmetrizeSG": 2, "Cutoff": 3,
-          "SetDataset": 1.2, "SetDisplacements": 1, "SetForces": 2, "ProduceFC": 4, "GetSCD": 2, "Copy": 1,
-          "Get": 0.5, "Query": 2.2, "MutateHandle": 2, "Drop": 1, "MutateCopy": 2}
+          "SetDataset": 1.2, "SetDisplacements": 1, "SetForces": 2, "ProduceFC": 4, "GetSCD": 2, "Copy": 2,
+          "Get": 1.2, "Query": 2.2, "MutateHandle": 2, "Drop": 2.5, "MutateCopy": 2}
 
 
 def random_history(world, rng, length, max_held=2, allow_aliased_env=False, perturb_nac=False, p_refuse=0.04):
@@ -780,7 +850,7 @@ def random_history(world, rng, length, max_held=2, allow_aliased_env=False, pert
                 if not allow_aliased_env:
                     ops = [o for o in ops if not (o["op"] == "MutateHandle" and obs["held"][o["i"] - 1]["alias"])
                            and not (o["op"] == "MutateCopy" and obs["cp"]["shared"])]
-                wts = np.array([WEIGHT[o["op"]] for o in ops], dtype=float)
+                wts = np.array([WEIGHT[o["op"]] * (0.35 if o.get("keep") else 1.0) for o in ops], dtype=float)
                 # a query soon after every state change
                 if events and events[-1]["op"] not in ("Query", "Get", "Drop", "GetSCD") and obs["dm"]["on"]:
                     wts = np.array([w * (4.0 if o["op"] == "Query" else 1.0) for w, o in zip(wts, ops)])
